@@ -9,8 +9,8 @@ use std::collections::{BTreeMap, BTreeSet, HashSet};
 use std::hash::{Hash, Hasher};
 use std::path::{Path, PathBuf};
 use std::sync::atomic::{AtomicBool, Ordering};
-use std::sync::Arc;
-use std::time::Instant;
+use std::sync::{Arc, Mutex};
+use std::time::{Duration, Instant};
 
 #[derive(Clone, Copy, PartialEq, Eq, Debug)]
 pub enum Tier {
@@ -361,6 +361,72 @@ where
     }
 }
 
+// ---------------------------------------------------------------------------
+// Stuck-case watchdog: a single case that runs for minutes (an evaluation that does not return, in a
+// check that evaluates in-process) must end the run as *inconclusive* with the case named, not leave
+// it spinning: a hang is exit 2, never a verdict.
+// ---------------------------------------------------------------------------
+
+type Describe = Box<dyn Fn() -> String + Send>;
+static RUNNING: Mutex<Vec<Option<(Instant, &'static str, Describe)>>> = Mutex::new(Vec::new());
+static WATCHDOG: std::sync::Once = std::sync::Once::new();
+static WATCH_ID: Mutex<&'static str> = Mutex::new("");
+
+pub fn case_limit() -> Duration {
+    Duration::from_secs(std::env::var("RV_CASE_LIMIT_S").ok().and_then(|v| v.parse().ok()).unwrap_or(600))
+}
+
+fn watch_slot(id: &'static str) -> usize {
+    *WATCH_ID.lock().unwrap() = id;
+    WATCHDOG.call_once(|| {
+        std::thread::spawn(|| loop {
+            std::thread::sleep(Duration::from_secs(5));
+            let limit = case_limit();
+            let stuck = {
+                let g = RUNNING.lock().unwrap();
+                g.iter().flatten().find(|(t, _, _)| t.elapsed() > limit).map(|(t, phase, d)| (t.elapsed(), *phase, d()))
+            };
+            if let Some((el, phase, desc)) = stuck {
+                let id = *WATCH_ID.lock().unwrap();
+                let dir = verif_root().join("replays");
+                let _ = std::fs::create_dir_all(&dir);
+                let path = dir.join(format!("{}-stuck-{:016x}.json", id, fxhash(&desc)));
+                let _ = std::fs::write(&path, &desc);
+                println!(
+                    "INCONCLUSIVE property={} one case of phase {} has been running for {:.0} s (limit {} s; a hang is not a verdict); the case is in {}: {}",
+                    id,
+                    phase,
+                    el.as_secs_f64(),
+                    limit.as_secs(),
+                    path.display(),
+                    desc.chars().take(1500).collect::<String>()
+                );
+                std::process::exit(2);
+            }
+        });
+    });
+    let mut g = RUNNING.lock().unwrap();
+    g.push(None);
+    g.len() - 1
+}
+
+fn fxhash(s: &str) -> u64 {
+    let mut h: u64 = 0xcbf29ce484222325;
+    for b in s.bytes() {
+        h ^= b as u64;
+        h = h.wrapping_mul(0x100000001b3);
+    }
+    h
+}
+
+fn watch_begin(slot: usize, phase: &'static str, d: Describe) {
+    RUNNING.lock().unwrap()[slot] = Some((Instant::now(), phase, d));
+}
+
+fn watch_end(slot: usize) {
+    RUNNING.lock().unwrap()[slot] = None;
+}
+
 /// Convenience: run a proptest strategy over `shards` threads; each shard
 /// builds its own environment with `mk_env`. Returns merged stats and the
 /// violations (at most one per shard, shrunk).
@@ -375,24 +441,32 @@ pub fn par_proptest<S, E>(
 ) -> (Stats, Vec<Violation>)
 where
     S: Strategy,
-    S::Value: Clone + std::fmt::Debug,
+    S::Value: Clone + std::fmt::Debug + Send + 'static,
 {
     let n = cx.threads.max(1);
     let per = ((total_cases + n as u64 - 1) / n as u64) as u32;
     let seed = cx.seed;
     let id = cx.id;
     let stop = cx.stop.clone();
+    let to_json = Arc::new(to_json);
     let results = par_shards(n, move |i, _| {
         let env = mk_env();
         let st = RefCell::new(Stats::new());
         let strat = strategy();
+        let slot = watch_slot(id);
         let r = run_proptest(
             mix_seed(seed, id, phase, i as u64),
             per,
             &strat,
             &st,
             &stop,
-            |v, s| check(&env, v, s),
+            |v, s| {
+                let (tj, vc) = (to_json.clone(), v.clone());
+                watch_begin(slot, phase, Box::new(move || tj(&vc).to_string()));
+                let r = check(&env, v, s);
+                watch_end(slot);
+                r
+            },
         );
         let viol = r.map(|(v, why)| Violation {
             phase: phase.to_string(),
@@ -426,14 +500,23 @@ where
 {
     let n = cx.threads.max(1);
     let items = Arc::new(items);
+    let to_json = Arc::new(to_json);
+    let id = cx.id;
     let results = par_shards(n, move |i, n| {
         let env = mk_env();
         let mut st = Stats::new();
         let mut viols: Vec<Violation> = vec![];
         let mut idx = i;
+        let slot = watch_slot(id);
         while idx < items.len() {
             let it = &items[idx];
-            if let Err(e) = check(&env, it, &mut st) {
+            {
+                let (tj, items2, k) = (to_json.clone(), items.clone(), idx);
+                watch_begin(slot, phase, Box::new(move || tj(&items2[k]).to_string()));
+            }
+            let res = check(&env, it, &mut st);
+            watch_end(slot);
+            if let Err(e) = res {
                 if viols.len() < 3 {
                     viols.push(Violation {
                         phase: phase.to_string(),
